@@ -17,6 +17,7 @@ import (
 	"github.com/arr-ai/arrai/pkg/fu"
 	"github.com/arr-ai/arrai/pkg/importcache"
 	"github.com/arr-ai/arrai/rel"
+	"github.com/arr-ai/arrai/tools"
 	"github.com/arr-ai/arrai/translate"
 )
 
@@ -130,9 +131,16 @@ func SafeStdScopeTuple() rel.Tuple {
 				return value, nil
 			}),
 			createFunc2Attr("printf", func(ctx context.Context, a, b rel.Value) (rel.Value, error) {
-				format := a.(rel.String).String()
-				strs := make([]interface{}, 0, b.(rel.Set).Count())
-				for i := b.(rel.Set).ArrayEnumerator(); i.MoveNext(); {
+				format, is := tools.ValueAsString(a)
+				if !is {
+					return nil, fmt.Errorf("//log.printf: format not a string: %v", a)
+				}
+				args, is := b.(rel.Set)
+				if !is {
+					return nil, fmt.Errorf("//log.printf: args not an array: %v", b)
+				}
+				strs := make([]interface{}, 0, args.Count())
+				for i := args.ArrayEnumerator(); i.MoveNext(); {
 					strs = append(strs, i.Current())
 				}
 				logger.Printf(format, strs...)
